@@ -87,7 +87,7 @@ def cfgs(tier, seed):
                         for pred in ((None,) if len(M) == 1 else (None, 'fine_only', 'pfasst_burnin')):
                             out.append(dict(base, sweeper=sw, qd=rng.choice(['IE', 'LU', 'MIN-SR-S', 'MIN', 'Qpar'] if sw != 'explicit' else ['EE']), prob=prob, n=n, M=M, NP=NP,
                                             maxiter=(3 if NP * len(M) * n > 3 else 4), predict=pred, jac=rng.choice([True, False]),
-                                            nsweeps=rng.choice([1, 1, 2]) if len(M) > 1 else 1, residual_type=rng.choice(['full_abs', 'full_abs', 'full_rel']), quad_type=(rng.choice(['RADAU-RIGHT', 'RADAU-RIGHT', 'LOBATTO', 'GAUSS']) if len(M) == 1 else rng.choice(['RADAU-RIGHT', 'LOBATTO'])),
+                                            nsweeps=rng.choice([1, 1, 2]) if len(M) > 1 else 1, residual_type=(rng.choice(['full_abs', 'full_abs', 'full_rel']) if n == 1 else 'full_abs'), quad_type=(rng.choice(['RADAU-RIGHT', 'RADAU-RIGHT', 'LOBATTO', 'GAUSS']) if len(M) == 1 else rng.choice(['RADAU-RIGHT', 'LOBATTO'])),
                                             finter=(rng.random() < 0.3 and len(M) > 1), initial_guess=rng.choice(['spread', 'spread', 'zero', 'copy']),
                                             all_to_done=(rng.random() < 0.25), cu=(rng.random() < 0.2 and len(M) == 1)))
         rng.shuffle(out)
